@@ -619,11 +619,11 @@ func (t *Tpl) writeNode(w io.Writer, node *node, ctx *Ctx) (err error) {
 			ctx.incD++
 			err = writeTree(w1, tpl, ctx)
 			ctx.incD--
-			if err != nil {
-				return
+			if err == nil {
+				_, err = w.Write(w1.Bytes())
 			}
-
-			_, err = w.Write(w1.Bytes())
+			// Give the writer back: next include on the same level will reuse it.
+			ctx.putW()
 		} else {
 			err = ErrTplNotFound
 		}
